@@ -19,6 +19,8 @@ TIERS = {
   'thorough': dict(runs=40000, deadline=840, workers=16),
 }
 SELFTEST_RUNS = 96
+GC_EVERY = 10  # lifted classes are cyclic garbage holding compiled executables; uncollected they exhaust the JIT code memory
+CLEAR_JAX_CACHES_EVERY = 25
 RULE = (
   'each run = one history (4..10 calls) on one twin program: a root module with 1-3 named children, each optionally lifted '
   '(nn.jit class transform, nn.jit method decorator, nn.remat, identity nn.map_variables over params or a mutable collection) '
@@ -36,7 +38,7 @@ ASSUMPTIONS = [
   'lifted classes are created fresh per history, so trace caches never leak between histories',
   'under nn.jit RNG-derived values are only required to be a deterministic function of the call site (the property says so); they are not compared with the plain twin',
 ]
-PROBES = ['lift_jit', 'lift_jit_method', 'lift_remat', 'lift_mapv_params', 'lift_mapv_mutable', 'cond', 'switch', 'while', 'attr_changed_between_calls', 'varstruct_changed_between_calls', 'mutable_changed_between_calls', 'repeat_same_call', 'fault_inside_lifted', 'write_immutable_same_error', 'jit_rng_deterministic', 'region_jit', 'region_remat', 'cold_twin_compared']
+PROBES = ['lift_jit', 'jit_methods', 'while_cond_write_raises', 'lift_jit_method', 'lift_remat', 'lift_mapv_params', 'lift_mapv_mutable', 'cond', 'switch', 'while', 'attr_changed_between_calls', 'varstruct_changed_between_calls', 'mutable_changed_between_calls', 'repeat_same_call', 'fault_inside_lifted', 'write_immutable_same_error', 'jit_rng_deterministic', 'region_jit', 'region_remat', 'cold_twin_compared']
 
 CROSS_RUN_STATE = True
 
@@ -68,8 +70,27 @@ def setup_worker(w, tier):
     def __call__(self, x):
       return P.run_body(self, P.parse(self.spec), x, {}) + float(self.k)
 
+  class KProg2(nn.Module):
+    """Two public methods on one setup-style module; the lifted twin is nn.jit(KProg2, methods=[both])."""
+
+    k: int = 0
+
+    def setup(self):
+      self.wa = self.param('wa', lambda key, shape: jnp.full(shape, 3.0, jnp.float32), (P.D,))
+      self.n_alt = self.variable('stats', 'n_alt', lambda: jnp.zeros((), jnp.float32))
+
+    def __call__(self, x):
+      return x + self.wa + float(self.k)
+
+    def alt(self, x):
+      if self.is_mutable_collection('stats') and not self.is_initializing():
+        self.n_alt.value = self.n_alt.value + 1.0
+      return x * 2.0 - self.wa + float(3 * self.k + 1) + self.n_alt.value
+
   globals()['KProg'] = KProg
+  globals()['KProg2'] = KProg2
   P.EXT['kchild'] = ext_kchild
+  P.EXT['kmeth'] = ext_kmeth
   P.EXT['cond'] = ext_cond
   P.EXT['switch'] = ext_switch
   P.EXT['while'] = ext_while
@@ -88,6 +109,7 @@ class Env:
   used = set()
   mapv_init = False
   ctl_preinit = True
+  cond_write_lifted = False
 
 
 ENV = Env()
@@ -135,6 +157,25 @@ def ext_kchild(mod, ins, x, n, made):
   for _ in range(ins.get('times', 1)):
     P.CTL.event('child-call')
     x = sub(x)
+  return x
+
+
+def ext_kmeth(mod, ins, x, n, made):
+  """One child, several public methods called in a generated order; lifted twin: nn.jit(Class, methods=[...])."""
+  sub = made.get(n)
+  if sub is None:
+    k = ENV.k if ins.get('use_k') else 0
+    if ENV.plain:
+      cls = KProg2
+    else:
+      ENV.used.add('jit_methods')
+      cls = ENV.classes.get('jit_methods')
+      if cls is None:
+        cls = ENV.classes['jit_methods'] = nn.jit(KProg2, methods=['__call__', 'alt'])
+    sub = made[n] = cls(k=k, name=ins['name'])
+  for m in ins['seq']:
+    P.CTL.event('child-call')
+    x = sub(x) if m == 'call' else sub.alt(x)
   return x
 
 
@@ -262,13 +303,23 @@ def ext_switch(mod, ins, x, n, made):
 
 def ext_while(mod, ins, x, n, made):
   ENV.used.add('while')
-  pv = _declare(mod, [ins['name'] + '_n'])
+  cw = bool(ins.get('cond_writes')) and not mod.is_initializing()
+  pv = _declare(mod, [ins['name'] + '_n'] + ([ins['name'] + '_c'] if ins.get('cond_writes') else []))
   subspec = ins['mod']
   first = P.make(subspec, name=ins['name'] + '_sub')
   x = first(x)  # variables must exist before the loop
   trips = ENV.trips
 
   def cond_fn(m, c):
+    if cw:
+      # a predicate that counts its own evaluations: fine in the Python loop (when 'stats' is mutable), while the
+      # lifted predicate sees read-only variables -- the write must raise there, it must never be dropped silently
+      if ENV.plain:
+        v = pv[ins['name'] + '_c']
+      else:
+        ENV.cond_write_lifted = True
+        v = m.variable('stats', ins['name'] + '_c', lambda: jnp.zeros((), jnp.float32))
+      v.value = v.value + 1.0
     return c['i'] < trips
 
   def body_fn(m, c):
@@ -331,19 +382,24 @@ def generate(rs, tier):
     body.append(dict(i='kchild', name=f'c{c}', mod=sub, lift=lift, use_k=g.random() < 0.7, times=g.choice([1, 1, 2]), has_rng=any(b['i'] == 'rng' for b in sub['body'])))
   r = g.random()
   if r < 0.2:
-    # no RNG draws inside cond/switch branches: under nn.cond the branches are traced one after the other on shared
-    # rng counters, so a later branch receives a different key than the plain `if`; the property promises identical
-    # draws only for remat (and call-site determinism for jit), so the generator avoids this corner (DESIGN.md)
+    # branches may draw random keys: since the repair of the shared branch counters (DESIGN.md 10.3) they receive the
+    # keys of the equivalent Python `if`
     body.append(dict(i='cond', name='cf', post=g.random() < 0.8, mod=gen_nested_sub(g, g.random() < 0.7) if g.random() < 0.4 else gen_sub(g, g.random() < 0.7, stats_ok=False, sow_ok=False)))
   elif r < 0.35:
     body.append(dict(i='switch', name='sw', post=g.random() < 0.8, mod=gen_nested_sub(g, g.random() < 0.7) if g.random() < 0.4 else gen_sub(g, g.random() < 0.7, stats_ok=False, sow_ok=False)))
-  elif r < 0.5:
-    body.append(dict(i='while', name='wl', mod=gen_sub(g, False, stats_ok=False, sow_ok=False)))  # non-carry collections are read-only inside the loop body
+  if body[-1]['i'] in ('cond', 'switch') and g.random() < 0.5 and not any(b['i'] == 'rng' for b in body[-1]['mod']['body']):
+    # draws inside the branches and, through the same bound instance, before and after the construct
+    body[-1]['mod']['body'].append(dict(i='rng', stream=g.choice(['dropout', 'noise'])))
+  elif r < 0.5 and body[-1]['i'] not in ('cond', 'switch'):
+    body.append(dict(i='while', name='wl', cond_writes=g.random() < 0.3, mod=gen_sub(g, False, stats_ok=False, sow_ok=False)))  # non-carry collections are read-only inside the loop body
   if g.random() < 0.3:
     lift = g.choice(['jit', 'jit', 'remat'])
     body.append(dict(i='region', name='rg', lift=lift, use_k=g.random() < 0.8, mod=gen_nested_sub(g, g.random() < 0.6) if g.random() < 0.6 else gen_sub(g, g.random() < 0.5)))
   if g.random() < 0.3:
     body.append(dict(i='rng', stream='dropout'))
+  if g.random() < 0.22:
+    body.append(dict(i='kmeth', name='km', use_k=g.random() < 0.6, seq=[g.choice(['call', 'alt']) for _ in range(g.randrange(1, 4))],
+                     mod=dict(style='setup', name=None, body=[dict(i='param', name='wa', kind='bias'), dict(i='var', col='stats', name='n_alt', kind='counter')])))
   g.shuffle(body)
   spec = dict(style='compact', name=None, body=body)
   jit_rng = None
@@ -441,7 +497,7 @@ def _has_rng(sp):
 
 
 def has_jit(spec):
-  return any((ins['i'] == 'kchild' and ins.get('lift') in ('jit', 'jit_method')) or (ins['i'] == 'region' and ins['lift'] == 'jit') for ins in spec['body'])
+  return any((ins['i'] == 'kchild' and ins.get('lift') in ('jit', 'jit_method')) or (ins['i'] == 'region' and ins['lift'] == 'jit') or ins['i'] == 'kmeth' for ins in spec['body'])
 
 
 def has_jit_rng_dependence(spec):
@@ -501,6 +557,7 @@ class TwinWorld:
 
   def run(self, op, plain, fn, fault_at=None, cold=False):
     self.setenv(op, plain)
+    ENV.cond_write_lifted = False
     P.CTL.reset(fail_at=fault_at)
     warm = ENV.classes
     if cold:
@@ -585,6 +642,11 @@ class TwinWorld:
       self.lift_calls += 1
     for u in ENV.used:
       res.probe({'jit': 'lift_jit', 'jit_method': 'lift_jit_method', 'remat': 'lift_remat', 'mapv_params': 'lift_mapv_params', 'mapv_mut': 'lift_mapv_mutable'}.get(u, u))
+    if ENV.cond_write_lifted and a[0] == 'ok' and b == ('exc', 'ModifyScopeVariableError'):
+      # the lifted predicate tried to write: refused loudly, as promised for variables a transform does not carry
+      res.probe('while_cond_write_raises')
+      self.log.add(oi, 'apply', 'cond-write-refused')
+      return
     if a[0] != b[0] or (a[0] == 'exc' and a[1] != b[1]):
       raise Violation('twins-disagree-on-error', f'op {oi} apply(mutable={F!r}, write={op.get("write")}): plain twin {a[0]} {a[1] if a[0] == "exc" else ""}, lifted twin {b[0]} {b[1] if b[0] == "exc" else ""}')
     if a[0] == 'exc':
